@@ -72,11 +72,15 @@ NfMatches(S, r, pkt, st) == \A i \in DOMAIN r.m : NfMatch(S, r.m[i], pkt, st)
 
 \* ---- would the kernel load this program? ----------------------------------------------------------
 (* iptables refuses a multiport / --dport match in a rule without a positive -p for a port protocol and an
-   icmp/icmp6 match without -p icmp / ipv6-icmp; both kernels refuse a reference to a set that does not
+   icmp/icmp6 match without -p icmp / ipv6-icmp, and a multiport match with more than 15 slots; both kernels refuse a reference to a set that does not
    exist; nft refuses a lookup whose key does not have the set's type, and nft's grammar wants the
    protocol keyword before every header field: "icmp type 8 code 0" is a syntax error (the "code"
    is not a keyword outside the icmp scope; nft 1.0.6: "Error: No symbol type information"), the
    accepted spelling is "icmp type 8 icmp code 0".                                                  *)
+\* xt_multiport holds at most 15 port slots; a single port takes one, a range two
+RECURSIVE NfSlotsFrom(_, _)
+NfSlotsFrom(rs, i) == IF i > Len(rs) THEN 0 ELSE (IF rs[i][1] = rs[i][2] THEN 1 ELSE 2) + NfSlotsFrom(rs, i + 1)
+NfPortSlots(rs) == NfSlotsFrom(rs, 1)
 NfRuleRefusals(flavour, S, r) ==
     LET ms == NfElems(r.m)
         posProto == { m.p : m \in { x \in ms : x.k = "proto" /\ ~x.neg } }
@@ -87,6 +91,8 @@ NfRuleRefusals(flavour, S, r) ==
              THEN {"nft-set-key-type"} ELSE {})
        \cup (IF flavour = "ipt" /\ (\E m \in ms : m.k = "ports") /\ posProto \cap NfPortProtos = {}
              THEN {"ipt-ports-without-protocol"} ELSE {})
+       \cup (IF flavour = "ipt" /\ \E m \in ms : m.k = "ports" /\ NfPortSlots(m.r) > 15
+             THEN {"ipt-multiport-over-15-slots"} ELSE {})
        \cup (IF flavour = "ipt" /\ \E m \in ms : m.k = "icmp" /\ (IF m.v = 4 THEN 1 ELSE 58) \notin posProto
              THEN {"ipt-icmp-without-protocol"} ELSE {})
        \cup (IF flavour = "nft" /\ \E m \in ms : m.k = "icmpf" /\ m.bare THEN {"nft-bare-icmp-code"} ELSE {})
@@ -140,26 +146,28 @@ NfPktDefaults == [iif |-> <<>>, oif |-> <<>>, ct |-> "NEW", ctdnat |-> FALSE, sr
                   rpfFail |-> FALSE, ipvs |-> FALSE]
 
 \* ---- hook traversal (C40) -------------------------------------------------------------------------
-(* T is a record table name |-> program; every program has base chains named after the hooks it is
-   registered at.  A packet visits, at each hook of its path, the tables in priority order
-   raw -> mangle -> filter (NAT is not modelled); the mark and the notrack/offload flags persist from
-   table to table; ACCEPT / RETURN from / falling off a base chain continue with the next table
-   (base chain policy ACCEPT); DROP / REJECT end the walk.                                          *)
+(* T is a record table name |-> [prog |-> program, base |-> [hook name |-> base chain name]] (a table has a
+   base chain only at the hooks it is registered at).  A packet visits, at each hook of its path, the
+   tables in priority order raw -> mangle -> filter (NAT is not modelled); the mark and the notrack /
+   offload flags persist from table to table; ACCEPT / RETURN from / falling off a base chain continue
+   with the next table (base chain policy ACCEPT); DROP / REJECT end the walk.
+   hooks: sequence of [hook |-> name, pkt |-> packet as seen at that hook] (interfaces differ per hook).
+   Result: [v |-> "accept" | "drop", t |-> where it was dropped, st |-> final state].                 *)
 NfTableOrder == <<"raw", "mangle", "filter">>
 
-RECURSIVE NfWalk(_, _, _, _, _, _)
-\* hooks: sequence of hook names; h, ti: current hook / table index
-NfWalk(T, S, pkt, hooks, pos, st) ==
+RECURSIVE NfWalk(_, _, _, _, _)
+NfWalk(T, S, hooks, pos, st) ==
     LET h == ((pos - 1) \div 3) + 1
         ti == ((pos - 1) % 3) + 1
     IN IF h > Len(hooks) THEN [v |-> "accept", t |-> "", st |-> st]
        ELSE LET tab == NfTableOrder[ti]
                 hook == hooks[h].hook
-                p == hooks[h].pkt          \* interfaces differ per hook (no oif in PREROUTING/INPUT, ...)
-            IN IF tab \notin DOMAIN T \/ hook \notin DOMAIN T[tab].chains
-               THEN NfWalk(T, S, pkt, hooks, pos + 1, st)
-               ELSE LET res == NfExec(T[tab], S[tab], p, hook, 1, NfEnter(st, tab \o ":" \o hook))
-                    IN IF res.v \in {"drop", "reject"} THEN [v |-> "drop", t |-> tab \o ":" \o hook, st |-> res.st]
-                       ELSE NfWalk(T, S, pkt, hooks, pos + 1, res.st)
-Path(T, S, hooks, mark) == NfWalk(T, S, <<>>, hooks, 1, NfState0(mark))
+            IN IF tab \notin DOMAIN T \/ hook \notin DOMAIN T[tab].base
+               THEN NfWalk(T, S, hooks, pos + 1, st)
+               ELSE LET bc == T[tab].base[hook]
+                        res == NfExec(T[tab].prog, S, hooks[h].pkt, bc, 1, NfEnter(st, bc))
+                    IN IF res.v \in {"drop", "reject"} THEN [v |-> "drop", t |-> bc, st |-> res.st]
+                       ELSE IF res.v = "ext" THEN [v |-> "ext", t |-> res.t, st |-> res.st]
+                       ELSE NfWalk(T, S, hooks, pos + 1, res.st)
+Path(T, S, hooks, mark) == NfWalk(T, S, hooks, 1, NfState0(mark))
 =============================================================================
